@@ -307,9 +307,14 @@ class Parameter(Term):
 
     def get_sql(self, ctx: SqlContext) -> str:
         if self._placeholder:
-            return self._placeholder
-
-        return self.IDX_PLACEHOLDERS.get(ctx.dialect, lambda _: self.DEFAULT_PLACEHOLDER)(self._idx)
+            sql = self._placeholder
+        else:
+            sql = self.IDX_PLACEHOLDERS.get(ctx.dialect, lambda _: self.DEFAULT_PLACEHOLDER)(
+                self._idx
+            )
+        if ctx.with_alias:
+            return format_alias_sql(sql, getattr(self, "alias", None), ctx)
+        return sql
 
 
 class Parameterizer:
@@ -367,7 +372,10 @@ class Negative(Term):
         if isinstance(self.term, ArithmeticExpression) or term_sql.startswith("-"):
             # -(a+b) must not become -a+b, and -(-a) must not become the comment opener --a
             term_sql = "({})".format(term_sql)
-        return "-{term}".format(term=term_sql)
+        sql = "-{term}".format(term=term_sql)
+        if ctx.with_alias:
+            return format_alias_sql(sql, self.alias, ctx)
+        return sql
 
 
 class ValueWrapper(Term):
@@ -555,7 +563,10 @@ class Values(Term):
         yield from self.field.nodes_()
 
     def get_sql(self, ctx: SqlContext) -> str:
-        return "VALUES({value})".format(value=self.field.get_sql(ctx.copy(with_alias=False)))
+        sql = "VALUES({value})".format(value=self.field.get_sql(ctx.copy(with_alias=False)))
+        if ctx.with_alias:
+            return format_alias_sql(sql, self.alias, ctx)
+        return sql
 
 
 class LiteralValue(Term):
@@ -1096,8 +1107,10 @@ class ComplexCriterion(BasicCriterion):
         )
 
         if ctx.subcriterion:
-            return "({criterion})".format(criterion=sql)
+            sql = "({criterion})".format(criterion=sql)
 
+        if ctx.with_alias:
+            return format_alias_sql(sql, self.alias, ctx)
         return sql
 
     def needs_brackets(self, term: Term) -> bool:
@@ -1781,6 +1794,8 @@ class PseudoColumn(Term):
         self.name = name
 
     def get_sql(self, ctx: SqlContext) -> str:
+        if ctx.with_alias:
+            return format_alias_sql(self.name, self.alias, ctx)
         return self.name
 
 
